@@ -410,6 +410,10 @@ func (env *Env) build(st *Step) error {
 			return &utypes.UWrapUC{Pfx: s, Err: e}
 		case "uWrapFull":
 			return &utypes.UWrapFull{Msg: s, Err: e}
+		case "uRegWrap":
+			return &utypes.URegWrap{Pfx: s, Err: e}
+		case "uRegWrapFull":
+			return &utypes.URegWrapFull{Msg: s, Err: e}
 		case "uAnnotWrap":
 			return &utypes.UAnnotWrap{Err: e}
 		case "uKeyWrap":
@@ -434,6 +438,9 @@ func (env *Env) build(st *Step) error {
 		errs := make([]error, len(st.Src))
 		for i, r := range st.Src {
 			errs[i] = env.Slots[r]
+		}
+		if len(st.A) > 0 && len(st.A[0]) == 1 && st.A[0][0] == "REG" {
+			return &utypes.URegMulti{Msg: s, Errs: errs}
 		}
 		if len(st.A) > 0 {
 			return &utypes.UMultiIs{Msg: s, Tag: at(st.A, 0), Errs: errs}
